@@ -22,7 +22,8 @@ CLASSES = [('header_damage', 1)]
 TIERS = {'quick': {}}
 ALPHABET = [b'a', b'B', b'z', b'0', b'9', b'_', b'-', b'.', b'/', b',',
             b'=', b':', b'#', b'+', b' ', b'\t', b'\xc3\xa9', b'\xff',
-            b', ', b'k=v', b'1', b'\r', b'1.0', b'utf-8']
+            b', ', b'k=v', b'1', b'\r', b'1.0', b'utf-8'] + \
+    [bytes([c]) for c in b'!"$%&\'()*;<>?@[\\]^`{|}~\x00\x7f\x0b\x0c']
 SWEEP_ALPHABET = [b'a', b'Z', b'0', b'_', b'-', b'.', b'/', b',', b'=', b':',
                   b'#', b'+', b' ', b'\t', b'\xe9', b'9']
 VALID_PIECES = [b'a=b', b'k=1', b'x-y=z_w', b'A0=-5', b'q=/p/q.r', b'k_=.',
